@@ -64,7 +64,8 @@ func (j *jsonld) Config() interface{} {
 }
 
 // AllFieldsDefined tests whether all fields are defined in the JSON-LD context(s) of the input.
-func AllFieldsDefined(DocumentLoader ld.DocumentLoader, inputJSON []byte) error {
+func AllFieldsDefined(DocumentLoader ld.DocumentLoader, inputJSON []byte) (err error) {
+	defer recoverProcessorPanic(&err)
 	document, err := ld.DocumentFromReader(bytes.NewReader(inputJSON))
 	if err != nil {
 		return err
